@@ -12,15 +12,14 @@
 // constant table (Vec-building terminals).  The constraints below keep exactly the tables and
 // spawner observations that a linearisable counter can produce.
 
-#![allow(static_mut_refs, dead_code, unused_imports, unused_variables, unused_mut)]
-
+#[cfg(kani)]
 pub mod model {
     use orx_concurrent_iter::ConcurrentIterX;
     use std::num::NonZeroUsize;
     use std::sync::atomic::{AtomicUsize, Ordering};
 
-    pub const MAXN: usize = 8;
-    pub const MAXT: usize = 8;
+    pub const MAXN: usize = @MAXN@;
+    pub const MAXT: usize = @MAXT@;
     pub const NOBODY: u8 = 255;
 
     // ---- configuration, set by the harness before the library is called
@@ -37,6 +36,11 @@ pub mod model {
     /// which run (0-based count of Runner::run* calls) the OWNER table applies to;
     /// other runs of the same harness get the "first worker drains all" schedule
     pub static mut MODEL_RUN: usize = 0;
+    /// prophecy of the spawning thread's observations (k-th look at the counter) and of the cut
+    pub const MAXOBS: usize = 12;
+    pub static mut OBS_P: [u8; MAXOBS] = [0; MAXOBS];
+    pub static mut OBS_K: usize = 0;
+    pub static mut CUT_P: u8 = 0;
 
     // ---- state
     pub static mut LEN: usize = 0;
@@ -88,6 +92,7 @@ pub mod model {
             THREAD = 0;
             SPAWNS = 0;
             PROGRESS = 0;
+            OBS_K = 0;
             CUT = usize::MAX;
             let mut i = 0;
             while i < MAXN {
@@ -247,7 +252,12 @@ pub mod model {
                     let p: usize = match OBS_POLICY {
                         1 => PROGRESS,
                         2 => claimed_prefix_boundary(),
-                        _ => kani::any(),
+                        _ => {
+                            assert!(OBS_K < MAXOBS, "VERIF-MODEL: more spawner observations than modelled");
+                            let p = OBS_P[OBS_K] as usize;
+                            OBS_K += 1;
+                            p
+                        }
                     };
                     kani::assume(p >= PROGRESS && p <= LEN);
                     kani::assume(p == 0 || IS_END[p]);
@@ -286,7 +296,7 @@ pub mod model {
                     SKIPPED[THREAD] = true;
                 }
                 if CUT == usize::MAX {
-                    let c: usize = kani::any();
+                    let c: usize = CUT_P as usize;
                     kani::assume(c >= LAST_END && c <= LEN);
                     kani::assume(c == 0 || IS_END[c]);
                     let mut i = 0;
@@ -326,20 +336,96 @@ pub mod model {
         unsafe { Ok(NonZeroUsize::new(AVAILABLE).unwrap()) }
     }
 
-    /// symbolic owner table for `n` positions and `t` workers
-    pub fn symbolic_owners(n: usize, t: usize) {
+    /// Switch the schedule model on for a source of `n` positions and `t` available threads.
+    /// `owners`: None = symbolic owner table (any worker below `t` may own any position),
+    /// Some(table) = that table.  All nondeterminism of the schedule is drawn here, up-front and
+    /// in a fixed order (owner table, spawner observations, cut), so that a counterexample's
+    /// concrete values can be fed to the native replay in the same order.
+    pub fn begin(n: usize, t: usize, owners: Option<[u8; MAXN]>, obs_policy: u8) {
+        unsafe {
+            assert!(n <= MAXN && t <= MAXT);
+            ACTIVE = true;
+            AVAILABLE = t;
+            OBS_POLICY = obs_policy;
+            match owners {
+                Some(tab) => OWNER = tab,
+                None => {
+                    let tab: [u8; MAXN] = kani::any();
+                    let mut i = 0;
+                    while i < MAXN {
+                        if i < n {
+                            kani::assume((tab[i] as usize) < t);
+                        }
+                        i += 1;
+                    }
+                    OWNER = tab;
+                }
+            }
+            let obs: [u8; MAXOBS] = kani::any();
+            OBS_P = obs;
+            CUT_P = kani::any();
+        }
+    }
+
+
+    pub fn owners_from(t: &[u8]) -> [u8; MAXN] {
+        let mut tab = [NOBODY; MAXN];
+        let mut i = 0;
+        while i < MAXN {
+            if i < t.len() {
+                tab[i] = t[i];
+            }
+            i += 1;
+        }
+        tab
+    }
+
+    /// no schedule model: atomics keep their sequential meaning, i.e. the first worker drains
+    /// the source and later workers come back empty
+    pub fn begin_unscheduled(t: usize) {
+        unsafe {
+            ACTIVE = false;
+            AVAILABLE = t;
+        }
+    }
+
+    // ---- observation points used inside harness closures (gates in the native replay)
+    #[inline(always)]
+    pub fn probe(_pos: usize) {}
+    pub fn matched() {
+        unsafe {
+            if PHASE == 2 && THREAD < MAXT {
+                MATCHED[THREAD] = true;
+            }
+        }
+    }
+
+    // ---- accessors (same API natively)
+    pub fn scopes() -> usize { unsafe { SCOPES } }
+    pub fn runs() -> usize { unsafe { RUNS } }
+    pub fn max_spawns() -> usize { unsafe { MAX_SPAWNS } }
+    pub fn pulls() -> usize { unsafe { PULLS } }
+    pub fn bad_pull_size() -> bool { unsafe { BAD_PULL_SIZE } }
+    pub fn pull_after_skip() -> bool { unsafe { PULL_AFTER_SKIP } }
+    pub fn pull_after_match() -> bool { unsafe { PULL_AFTER_MATCH } }
+    pub fn cut() -> usize { unsafe { CUT } }
+    pub fn claimed_by(pos: usize) -> u8 { unsafe { CLAIMED_BY[pos] } }
+    pub fn expect_pull(c: usize) { unsafe { EXPECT_PULL = c; } }
+    pub fn model_run(k: usize) { unsafe { MODEL_RUN = k; } }
+    pub fn any_matched() -> bool {
         unsafe {
             let mut i = 0;
-            while i < MAXN {
-                if i < n {
-                    let o: u8 = kani::any();
-                    kani::assume((o as usize) < t);
-                    OWNER[i] = o;
-                } else {
-                    OWNER[i] = NOBODY;
-                }
-                i += 1;
-            }
+            let mut r = false;
+            while i < MAXT { r |= MATCHED[i]; i += 1; }
+            r
+        }
+    }
+    pub fn any_skipped() -> bool {
+        unsafe {
+            let mut i = 0;
+            let mut r = false;
+            while i < MAXT { r |= SKIPPED[i]; i += 1; }
+            r
         }
     }
 }
